@@ -1,4 +1,134 @@
-/-! Line-protocol driver for property C12 (stub until the model exists). -/
+import CprocVerif.Model.Scan
+import CprocVerif.Model.PP
+import CprocVerif.Spec.MacroRef
+
+/-! Line-protocol driver for property C12 (model of the macro machinery of `pp.c`, and the
+6.10.3 reference).
+
+One output line per input line:
+* `pp <hex>`   → the model's `next()` stream for the source text: `<tok> … [!<error class>] [@<events>]`
+                 `<tok>` = `<kind number>:<lit hex | ->:<space 0|1>`
+* `ppnl <hex>` → the same with `PPNEWLINE` set (what `-E` does)
+* `ref <hex>`  → the reference (`Spec/MacroRef.lean`): `<tok> … [!<error class>] [@<flags>]`, keywords converted
+* `lex <hex>`  → the raw `scan()` stream with keywords converted, new-lines dropped
+-/
+
+open CprocVerif CprocVerif.Gen.TokenKinds
+
+def hexDigit (c : Char) : Option Nat :=
+  if '0' ≤ c ∧ c ≤ '9' then some (c.toNat - '0'.toNat)
+  else if 'a' ≤ c ∧ c ≤ 'f' then some (c.toNat - 'a'.toNat + 10)
+  else none
+
+def parseHex (s : String) : Option (List UInt8) :=
+  let rec go : List Char → List UInt8 → Option (List UInt8)
+    | [], acc => some acc.reverse
+    | [_], _ => none
+    | a :: b :: r, acc =>
+      match hexDigit a, hexDigit b with
+      | some x, some y => go r ((x * 16 + y).toUInt8 :: acc)
+      | _, _ => none
+  go s.toList []
+
+def hexOf (bs : List UInt8) : String :=
+  let d (n : Nat) : Char := if n < 10 then Char.ofNat (48 + n) else Char.ofNat (87 + n)
+  String.ofList (bs.foldr (fun b acc => d (b.toNat / 16) :: d (b.toNat % 16) :: acc) [])
+
+def ofScan (t : Scan.Token) : PP.Tok := ⟨t.kind, t.lit, t.space, false⟩
+
+/-- raw token list of a text; a scanner diagnostic becomes a `TNONE` token -/
+def rawOf (bs : List UInt8) : List PP.Tok :=
+  let r := Scan.tokensP bs
+  r.1.map ofScan ++ (match r.2 with | none => [] | some _ => [⟨.TNONE, none, false, false⟩])
+
+def errName : PP.Err → String
+  | .fuel => "fuel" | .scan => "scan" | .defineName => "defineName"
+  | .paramAfterEllipsis => "paramAfterEllipsis" | .paramComma => "paramComma" | .paramName => "paramName"
+  | .hashhash => "hashhash" | .vaArgs => "vaArgs" | .hashIdent => "hashIdent" | .hashNotParam => "hashNotParam"
+  | .redefinition => "redefinition" | .undefName => "undefName" | .dirName => "dirName"
+  | .dirUnimpl d => "dirUnimpl." ++ hexOf d | .dirInvalid => "dirInvalid" | .lineNumber => "lineNumber"
+  | .dirTrailing => "dirTrailing" | .eofInArgs => "eofInArgs" | .notEnoughArgs => "notEnoughArgs"
+  | .tooManyArgs => "tooManyArgs" | .assertFail => "assertFail"
+
+def evName : PP.Event → String
+  | .strNested => "strNested" | .emptySpace => "emptySpace" | .pragmaPeek => "pragmaPeek"
+  | .dirInPeek => "dirInPeek" | .dirInArgs => "dirInArgs" | .depthConf => "depthConf"
+
+def showTok (t : PP.Tok) : String :=
+  let lit := match t.lit with
+    | none => "-"
+    | some l => if t.kind = Kind.TOTHER then hexOf (l.take 1) else hexOf l
+  s!"{t.kind.toNat}:{lit}:{if t.space then 1 else 0}"
+
+def FUEL : Nat := 20000
+def MAXOUT : Nat := 6000
+
+/-- the loop of `PP.run`, with an accumulator and the final state (for the ghost events) -/
+def runAcc : Nat → PP.St → Array String → Array String × Option PP.Err × PP.St
+  | 0, st, acc => (acc, some .fuel, st)
+  | n + 1, st, acc =>
+    match PP.exec FUEL .next st with
+    | .error e => (acc, some e, st)
+    | .ok st1 =>
+      if st1.tok.kind = .TEOF then (acc.push (showTok st1.tok), none, st1)
+      else runAcc n st1 (acc.push (showTok st1.tok))
+
+def showModel (bs : List UInt8) (ppnl : Bool) : String :=
+  let r := runAcc MAXOUT (PP.St.init (rawOf bs) ppnl) #[]
+  let toks := " ".intercalate r.1.toList
+  let e := match r.2.1 with | none => "" | some e => " !" ++ errName e
+  let evs := r.2.2.events.eraseDups
+  let ev := if evs.isEmpty then "" else " @" ++ ",".intercalate (evs.map evName)
+  toks ++ e ++ ev
+
+def refErr : Spec.MacroRef.RErr → String
+  | .fuel => "fuel" | .lex => "lex" | .badDefine => "badDefine" | .dupParam => "dupParam" | .vaArgs => "vaArgs"
+  | .hashParam => "hashParam" | .hashhash => "hashhash" | .redefinition => "redefinition" | .redefinitionSpace => "redefinitionSpace" | .badUndef => "badUndef"
+  | .badDirective => "badDirective" | .unsupported => "unsupported" | .badLine => "badLine" | .trailing => "trailing"
+  | .unterminated => "unterminated" | .argCount => "argCount"
+
+def refFlag : Spec.MacroRef.Flag → String
+  | .nestUnspec => "nestUnspec" | .dirInArgs => "dirInArgs" | .crossInvocation => "crossInvocation"
+
+def showRef (bs : List UInt8) : String :=
+  let r := Scan.tokensP bs
+  let unit : List Spec.MacroRef.PTok :=
+    r.1.map (fun t => ⟨t.kind, t.lit, t.space⟩) ++ (match r.2 with | none => [] | some _ => [⟨.TNONE, none, false⟩])
+  let o := Spec.MacroRef.expandUnit 200000 unit
+  let toks := o.toks.map fun t => showTok (PP.toKeyword ⟨t.kind, t.lit, t.space, false⟩)
+  let e := match o.err with | none => "" | some e => " !" ++ refErr e
+  let fl := o.flags.eraseDups
+  let f := if fl.isEmpty then "" else " @" ++ ",".intercalate (fl.map refFlag)
+  " ".intercalate toks ++ e ++ f
+
+def showLex (bs : List UInt8) : String :=
+  let r := Scan.tokensP bs
+  let ts := (r.1.filter (·.kind ≠ Kind.TNEWLINE)).map fun t => PP.toKeyword (ofScan t)
+  " ".intercalate (ts.map showTok) ++ (match r.2 with | none => "" | some _ => " !scan")
+
+def step (line : String) : String :=
+  match line.trimAscii.toString.splitOn " " with
+  | [op] => step1 op []
+  | [op, h] => match parseHex h with | some bs => step1 op bs | none => "bad-op"
+  | _ => "bad-op"
+where
+  step1 (op : String) (bs : List UInt8) : String :=
+    if op = "pp" then showModel bs false
+    else if op = "ppnl" then showModel bs true
+    else if op = "ref" then showRef bs
+    else if op = "lex" then showLex bs
+    else "bad-op"
+
+partial def loop (stdin stdout : IO.FS.Stream) : IO Unit := do
+  let line ← stdin.getLine
+  if line.isEmpty then
+    return ()
+  stdout.putStrLn (step line)
+  loop stdin stdout
+
 def main (_args : List String) : IO UInt32 := do
-  IO.eprintln "drv_c12: no model yet"
-  return 2
+  let stdin ← IO.getStdin
+  let stdout ← IO.getStdout
+  loop stdin stdout
+  stdout.flush
+  return 0
